@@ -89,4 +89,60 @@ def firstBad (h : Heur) (A : List Asserted) (nodes : List PNode) : Nat → List 
   | _, [] => none
   | i, n :: rest => if checkNode h A nodes i n then firstBad h A nodes (i + 1) rest else some i
 
+
+/-! ### rule applications -/
+
+/-- a rewrite rule as the harness hands it to `Rewrite::new`: *named* terms whose pattern variables are leaves of the
+reserved variant `pvarTag` carrying the variable name as a literal -/
+structure RuleDef where
+  name : String
+  lhs : Term
+  rhs : Term
+
+def pvarTag : Nat := 999
+
+def pvarName : Term → Option String
+  | .mk n cs => if n.v = pvarTag then (match n.fields, cs with | [.lit a], [] => some a | _, _ => none) else none
+
+mutual
+/-- rename every slot occurrence of a named term, binder names included -/
+def renameAllT (σ : Nat → Nat) : Term → Term
+  | .mk n cs => .mk (Node.rename σ n) (renameAllTL σ cs)
+def renameAllTL (σ : Nat → Nat) : List Term → List Term
+  | [] => []
+  | t :: ts => renameAllT σ t :: renameAllTL σ ts
+end
+
+mutual
+/-- replace the pattern-variable leaves by the terms bound to them (a variable under a binder may mention the bound slot) -/
+def instT (θ : List (String × Term)) : Term → Term
+  | .mk n cs =>
+    if n.v = pvarTag then
+      (match n.fields, cs with
+       | [.lit a], [] => (match θ.find? (·.1 == a) with | some p => p.2 | none => .mk n cs)
+       | _, _ => .mk n (instTL θ cs))
+    else .mk n (instTL θ cs)
+def instTL (θ : List (String × Term)) : List Term → List Term
+  | [] => []
+  | t :: ts => instT θ t :: instTL θ ts
+end
+
+mutual
+def allSlotsT : Term → List Nat
+  | .mk n cs => Node.allOcc n ++ allSlotsTL cs
+def allSlotsTL : List Term → List Nat
+  | [] => []
+  | t :: ts => allSlotsT t ++ allSlotsTL ts
+end
+
+/-- **what an application of a rule asserts**: both sides of the rule under one renaming of the pattern slots that is
+injective on them, with the pattern variables replaced by terms; `none` if the renaming is not injective -/
+def ruleInstance (rd : RuleDef) (θ : List (String × Term)) (σ : List (Nat × Nat)) : Option (Term × Term) :=
+  let ps := Orc.dedupL (allSlotsT rd.lhs ++ allSlotsT rd.rhs)
+  let img := ps.map (Orc.applyRen σ)
+  if img.length == (Orc.dedupL img).length then
+    some (close (instT θ (renameAllT (Orc.applyRen σ) rd.lhs)), close (instT θ (renameAllT (Orc.applyRen σ) rd.rhs)))
+  else none
+
+
 end SV.PC
